@@ -370,6 +370,9 @@ func (n *normalizer) inlinable(fn *types.Func, fd *ast.FuncDecl) bool {
 	if fn != nil && n.wrapEntryLike(fn, fd) {
 		return false // a new error-wrapper entry point: kept as a function and recognised by its summary (wrapInfoOf)
 	}
+	if fn != nil && requestCtxLike(fn) {
+		return false // derives the context of one request (requestContext's role): the unit the timeout rules anchor in
+	}
 	if fn != nil && packetReadLike(fn) {
 		return false // the function that reads one packet off the transport: the unit the serve model and the codec rules anchor in
 	}
@@ -2032,7 +2035,7 @@ func nextStmt(parent ast.Node, st ast.Stmt) ast.Stmt {
 
 // threadable: `lhs… := call` tested by `if X != nil BODY` (no else), X one of the targets, BODY free of labels and of
 // break statements that bind outside BODY.
-func (n *normalizer) threadable(as *ast.AssignStmt, iff *ast.IfStmt) *threadSpec {
+func (n *normalizer) threadable(as *ast.AssignStmt, iff *ast.IfStmt, retForm bool) *threadSpec {
 	th := &threadSpec{errIdx: -1, body: iff.Body}
 	lhsObj := map[types.Object]int{}
 	for i, l := range as.Lhs {
@@ -2062,7 +2065,11 @@ func (n *normalizer) threadable(as *ast.AssignStmt, iff *ast.IfStmt) *threadSpec
 		// general form: any test that mentions a target (`if !ok {…}`, `if err != nil {…} else {…}`): the whole if
 		// statement is continued at every return of the callee
 		mentions := false
-		ast.Inspect(iff.Cond, func(y ast.Node) bool {
+		var scanIn ast.Node = iff.Cond
+		if retForm {
+			scanIn = iff.Body
+		}
+		ast.Inspect(scanIn, func(y ast.Node) bool {
 			if id, ok := y.(*ast.Ident); ok {
 				if _, isT := lhsObj[n.info.Uses[id]]; isT {
 					mentions = true
@@ -2074,6 +2081,9 @@ func (n *normalizer) threadable(as *ast.AssignStmt, iff *ast.IfStmt) *threadSpec
 			return nil
 		}
 		th.whole = &ast.IfStmt{Cond: iff.Cond, Body: iff.Body, Else: iff.Else}
+		if retForm {
+			th.ret = iff.Body.List[0].(*ast.ReturnStmt)
+		}
 		// `if t` / `if !t` on a boolean target: the test can be specialised by what each return yields
 		th.boolIdx = -1
 		cond := ast.Unparen(iff.Cond)
@@ -2218,6 +2228,7 @@ type threadSpec struct {
 	cond   string         // name tested against nil
 	body   *ast.BlockStmt // BODY
 	whole  *ast.IfStmt    // general form: the complete if statement (without its init) to continue with
+	ret    *ast.ReturnStmt // the continuation is a return statement (spelled `if true { return … }` in whole)
 	// general form with the condition `t` / `!t` for a boolean target t: index of t, and whether it is negated
 	boolIdx int
 	boolNeg bool
@@ -2374,9 +2385,31 @@ func (n *normalizer) bodyText(fd *ast.FuncDecl, mode string, temps []string, res
 				if len(rhs) == 0 {
 					rhs = idents(resNames)
 				}
-				repl = append(repl, &ast.AssignStmt{Lhs: idents(targets), Tok: token.ASSIGN, Rhs: rhs})
+				// a blank target takes no value: drop the pair when the value is a plain name or literal (`_ = nil` is not Go)
+				var lhs2 []ast.Expr
+				var rhs2 []ast.Expr
+				if len(rhs) == len(targets) {
+					for i, tname := range targets {
+						if tname == "_" && syntacticallyPure(rhs[i]) {
+							continue
+						}
+						lhs2 = append(lhs2, ast.NewIdent(tname))
+						rhs2 = append(rhs2, rhs[i])
+					}
+				} else {
+					lhs2, rhs2 = idents(targets), rhs
+				}
+				if len(lhs2) > 0 {
+					repl = append(repl, &ast.AssignStmt{Lhs: lhs2, Tok: token.ASSIGN, Rhs: rhs2})
+				}
 			}
 			repl = append(repl, runDefers()...)
+			if th != nil && th.ret != nil {
+				// the statement after the call is a return: it is made here, and nothing follows
+				repl = append(repl, th.ret)
+				(*list)[i] = &ast.BlockStmt{List: repl}
+				continue
+			}
 			if th != nil && th.whole != nil {
 				repl = append(repl, specialiseIf(th, ret, boolRet[ret], len(active) > 0)...)
 			} else if th != nil && !nilRet[ret] {
@@ -2535,6 +2568,7 @@ func (n *normalizer) inlineSite(filename string, s *site) (done bool) {
 	// ---- error-check threading
 	var th *threadSpec
 	var thIf *ast.IfStmt
+	retForm := false
 	if form == "assign" {
 		as := st.(*ast.AssignStmt)
 		if wrapIf != nil && wrapIf.Init == st {
@@ -2542,10 +2576,19 @@ func (n *normalizer) inlineSite(filename string, s *site) (done bool) {
 		} else if listCtx {
 			if i2, ok := nextStmt(s.parent, st).(*ast.IfStmt); ok && i2.Init == nil {
 				thIf = i2
+			} else if r2, ok := nextStmt(s.parent, st).(*ast.ReturnStmt); ok && len(r2.Results) > 0 {
+				// `x, err := f(…); return …err…`: the return is continued at every return of the callee, spelled as
+				// `if true { return … }` so that the same machinery applies
+				thIf = &ast.IfStmt{
+					If:   r2.Pos(),
+					Cond: ast.NewIdent("true"),
+					Body: &ast.BlockStmt{Lbrace: r2.Pos(), List: []ast.Stmt{r2}, Rbrace: r2.End() - 1},
+				}
+				retForm = true
 			}
 		}
 		if thIf != nil {
-			th = n.threadable(as, thIf)
+			th = n.threadable(as, thIf, retForm)
 		}
 		if th == nil {
 			thIf = nil
@@ -3322,4 +3365,25 @@ func (n *normalizer) funcValueUses() map[*types.Func]bool {
 		})
 	}
 	return out
+}
+
+// requestCtxLike: results (context.Context, func()) — the role of (*RetryClient).requestContext.
+func requestCtxLike(fn *types.Func) bool {
+	sig, ok := fn.Type().(*types.Signature)
+	if !ok || sig.Results().Len() != 2 || sig.Params().Len() == 0 {
+		return false
+	}
+	if types.TypeString(sig.Results().At(0).Type(), nil) != "context.Context" {
+		return false
+	}
+	r1, ok := sig.Results().At(1).Type().Underlying().(*types.Signature)
+	if !ok || r1.Params().Len() != 0 || r1.Results().Len() != 0 {
+		return false
+	}
+	for i := 0; i < sig.Params().Len(); i++ {
+		if types.TypeString(sig.Params().At(i).Type(), nil) == "context.Context" {
+			return true
+		}
+	}
+	return false
 }
